@@ -12,37 +12,58 @@ from .face import FaceVariable
 # ------------------- Utility functions ---------------------
 
 
+def _split_upwind(uval, dirval, axis):
+    """Split the face velocity `uval` (normal to `axis`) into the part carried by the
+    cell on the high side (u_min, non-zero where the upwind direction is negative)
+    and the part carried by the cell on the low side (u_max, non-zero where the
+    upwind direction is positive).
+
+    Where the upwind direction is exactly zero there is no donor cell: like
+    `upwindMean`, use the plain average of the two adjacent cells, i.e. half of
+    the velocity on either side. On the two boundary faces of the axis the
+    boundary-cell corrections of the xxxTerm functions already turn the
+    'inflow' part into that average, so the full velocity goes there.
+    """
+    u_min = np.copy(uval)
+    u_max = np.copy(uval)
+    u_min[dirval > 0.0] = 0.0
+    u_max[dirval < 0.0] = 0.0
+    zero = (dirval == 0.0)
+    if zero.any():
+        u_min[zero] = 0.5*uval[zero]
+        u_max[zero] = 0.5*uval[zero]
+        first = [slice(None)]*uval.ndim
+        last = [slice(None)]*uval.ndim
+        first[axis] = 0
+        last[axis] = -1
+        first = tuple(first)
+        last = tuple(last)
+        zero_first = np.zeros_like(zero)
+        zero_first[first] = zero[first]
+        zero_last = np.zeros_like(zero)
+        zero_last[last] = zero[last]
+        u_min[zero_first] = 0.0
+        u_max[zero_first] = uval[zero_first]
+        u_max[zero_last] = 0.0
+        u_min[zero_last] = uval[zero_last]
+    return u_min, u_max
+
+
+
 def _upwind_min_max(u: FaceVariable, u_upwind: FaceVariable):
     if issubclass(type(u.domain), Grid1D):
-        ux_min = np.copy(u._xvalue)
-        ux_max = np.copy(u._xvalue)
-        ux_min[u_upwind._xvalue > 0.0] = 0.0
-        ux_max[u_upwind._xvalue < 0.0] = 0.0
+        ux_min, ux_max = _split_upwind(u._xvalue, u_upwind._xvalue, 0)
         return ux_min, ux_max
     elif issubclass(type(u.domain), Grid2D):
-        ux_min = np.copy(u._xvalue)
-        ux_max = np.copy(u._xvalue)
-        uy_min = np.copy(u._yvalue)
-        uy_max = np.copy(u._yvalue)
-        ux_min[u_upwind._xvalue > 0.0] = 0.0
-        ux_max[u_upwind._xvalue < 0.0] = 0.0
-        uy_min[u_upwind._yvalue > 0.0] = 0.0
-        uy_max[u_upwind._yvalue < 0.0] = 0.0
+        ux_min, ux_max = _split_upwind(u._xvalue, u_upwind._xvalue, 0)
+        uy_min, uy_max = _split_upwind(u._yvalue, u_upwind._yvalue, 1)
         return ux_min, ux_max, uy_min, uy_max
     elif issubclass(type(u.domain), Grid3D):
-        ux_min = np.copy(u._xvalue)
-        ux_max = np.copy(u._xvalue)
-        uy_min = np.copy(u._yvalue)
-        uy_max = np.copy(u._yvalue)
-        uz_min = np.copy(u._zvalue)
-        uz_max = np.copy(u._zvalue)
-        ux_min[u_upwind._xvalue > 0.0] = 0.0
-        ux_max[u_upwind._xvalue < 0.0] = 0.0
-        uy_min[u_upwind._yvalue > 0.0] = 0.0
-        uy_max[u_upwind._yvalue < 0.0] = 0.0
-        uz_min[u_upwind._zvalue > 0.0] = 0.0
-        uz_max[u_upwind._zvalue < 0.0] = 0.0
+        ux_min, ux_max = _split_upwind(u._xvalue, u_upwind._xvalue, 0)
+        uy_min, uy_max = _split_upwind(u._yvalue, u_upwind._yvalue, 1)
+        uz_min, uz_max = _split_upwind(u._zvalue, u_upwind._zvalue, 2)
         return ux_min, ux_max, uy_min, uy_max, uz_min, uz_max
+
 
 
 def _fsign(phi_in, eps1=1e-16):
